@@ -229,6 +229,8 @@ class C06(Harness):
                 ctx.assume(False)
             if med and spec.get("scaled") and tier_q and (T > 2 or (m == 2 and T > 1)):
                 ctx.assume(False)
+            if med and spec.get("scaled") and not tier_q and m == 2 and T > 2:
+                ctx.assume(False)
         elif kind == "scale":
             # symbolic scale factor at the smallest size; concrete factors (2, 1/3) at the larger size
             symc = bool(ctx.fresh_bool("symbolic_c"))
